@@ -203,12 +203,16 @@ func (p *Pool) Get() any {
 }
 
 func (p *Pool) Put(x any) {
-	if sched.Cur() != nil {
+	if c := sched.Cur(); c != nil {
 		if len(p.items) == 0 {
 			sched.AtExecEnd(func() { p.items = nil })
 		}
 		sched.RaceRelease(unsafe.Pointer(&p.token))
 		p.items = append(p.items, x)
+		// A scheduling point AFTER the object is back in the pool: another thread may Get it now,
+		// while the thread that put it back is still running -- the window in which a reference
+		// kept past Put (a classic pool misuse, invisible to sequential use) does its damage.
+		c.Point("Pool.Put(done)", p, func() bool { return true })
 		return
 	}
 	p.p.Put(x)
